@@ -65,6 +65,9 @@ type Fragment struct {
 	Inconclusive  []string         `json:"inconclusive,omitempty"`
 	WallS         float64          `json:"wall_s"`
 	Finished      bool             `json:"finished"`
+	// Panicked holds the panic value and stack if the test function panicked
+	// while Finish ran as a deferred call (the runner attributes it).
+	Panicked string `json:"panicked,omitempty"`
 }
 
 // Run is the per-unit monitor context. All methods are safe for concurrent use.
@@ -269,6 +272,11 @@ func (r *Run) Guard(sigPrefix string, input any, fn func()) (panicked bool) {
 
 // Finish writes the fragment. Call it with defer right after Start.
 func (r *Run) Finish() {
+	var panicked string
+	if p := recover(); p != nil {
+		panicked = fmt.Sprintf("panic: %v\n\n%s", p, debug.Stack())
+		defer panic(p)
+	}
 	r.mu.Lock()
 	if r.finished {
 		r.mu.Unlock()
@@ -279,7 +287,7 @@ func (r *Run) Finish() {
 		Evaluations: atomic.LoadInt64(&r.evals), Distinct: len(r.nontrivial), Rule: r.rule,
 		Samples: r.samples, Counters: r.counters, Assumptions: r.assumptions, Notes: r.notes,
 		Violations: r.violations, NumViolations: r.nviol, Inconclusive: r.inconclusive,
-		WallS: time.Since(r.start).Seconds(), Finished: true}
+		WallS: time.Since(r.start).Seconds(), Finished: true, Panicked: panicked}
 	if fr.Samples == nil {
 		fr.Samples = []any{}
 	}
